@@ -63,7 +63,7 @@ static long g_fail_at = 0;   // fail exactly this allocation request of the curr
 static int  g_hit     = 0;   // the fault was injected
 static long g_arm     = 0;   // fault index for the next PARSE() (set by the sweep)
 static const char *g_cur_fn = NULL;   // legacy function of the call being executed (for the crash event)
-// In a sweep the blocks allocated by the call are tracked: what is still allocated after the matching free function
+// The blocks allocated by a legacy call are tracked: what is still allocated after the matching free function
 // is reported with the call ("leak") and then released by the harness, so that the process-level signals (ledger
 // at exit, LeakSanitizer) only speak about allocations that no call record accounts for.
 static int                       g_track = 0;
@@ -99,7 +99,7 @@ static void *cnt_realloc(void *p, size_t n)
   return q;
 }
 // the legacy call proper: allocation requests are counted from 1, request g_arm fails
-#define PARSE(expr) do { g_count = 0; g_hit = 0; g_fail_at = g_arm; g_track = g_arm > 0; g_in_call = 1; st = (expr); g_in_call = 0; g_fail_at = 0; } while (0)
+#define PARSE(expr) do { g_count = 0; g_hit = 0; g_fail_at = g_arm; g_track = 1; g_in_call = 1; st = (expr); g_in_call = 0; g_fail_at = 0; } while (0)
 
 // ---------------------------------------------------------------- small helpers
 static FILE *g_out = NULL;
@@ -602,9 +602,9 @@ static std::string call_legacy(const std::string &fn, const std::string &mode, i
   o = "{\"fn\":" + jstr(fn) + ",\"mode\":" + jstr(mode) + ",\"cap\":" + num(cap) + ",\"st\":" + jstr(stname(st)) +
       ",\"items\":" + items + ",\"n\":" + num(n) + ",\"guard\":" + num(guard) + ",\"host\":" + host +
       ",\"leak\":" + num(g_live - live0);
-  if (g_arm > 0) {
-    o += ",\"oom\":" + num(g_arm) + ",\"hit\":" + num(g_hit) + ",\"allocs\":" + num(g_count);
-    g_track = 0;
+  if (g_arm > 0) o += ",\"oom\":" + num(g_arm) + ",\"hit\":" + num(g_hit) + ",\"allocs\":" + num(g_count);
+  g_track = 0;
+  if (!g_blocks.empty()) {
     std::vector<void *> left(g_blocks.begin(), g_blocks.end());
     g_blocks.clear();
     for (void *p : left) cnt_free(p);      // reported above as "leak"; released here
